@@ -54,7 +54,11 @@ verif_bv256 __CPROVER_uninterpreted_blake3_row(
   __CPROVER_uninterpreted_blake3_cip(V256(key), V512_PAIR(l, r), (uint8_t)64, (uint64_t)0, (uint8_t)(fl))
 
 /* block b (0..15) of a hash_many input of 64*blocks bytes, zero beyond the row */
-#define VROWB(p, blocks, b) (((size_t)(b) < (size_t)(blocks)) ? V512((p) + 64 * (b)) : (verif_bv512)0)
+#ifndef VERIF_HM_MAXBLOCKS
+#define VERIF_HM_MAXBLOCKS 16 /* a unit may lower it: its UF clauses then speak about blocks <= this only */
+#endif
+#define VROWB(p, blocks, b)                                                               \
+  (((b) < VERIF_HM_MAXBLOCKS && (size_t)(b) < (size_t)(blocks)) ? V512((p) + 64 * (b)) : (verif_bv512)0)
 #define VROW(p, n)                                                                        \
   VROWB(p, n, 0), VROWB(p, n, 1), VROWB(p, n, 2), VROWB(p, n, 3), VROWB(p, n, 4), VROWB(p, n, 5),     \
   VROWB(p, n, 6), VROWB(p, n, 7), VROWB(p, n, 8), VROWB(p, n, 9), VROWB(p, n, 10), VROWB(p, n, 11),   \
@@ -80,11 +84,14 @@ static const uint8_t *verif_w;
 /* proof device for loops: a value the harness computes from the arguments before the call (loop
  * invariants must not contain function applications, not even uninterpreted ones) */
 static uint8_t verif_expect_byte;
+static size_t verif_row;
 
 #define VERIF_FN_PROLOGUE()                                                               \
   do {                                                                                    \
     const uint8_t *verif_nd_w_;                                                           \
     verif_w = verif_nd_w_;                                                                \
+    size_t verif_nd_row_;                                                                 \
+    verif_row = verif_nd_row_;                                                            \
   } while (0)
 
 #endif
